@@ -621,7 +621,12 @@ def rule_derive_options(ctx):
     calls = setters.get('set_query_file', [])
     if calls:
         t = ctx.pv.eval(fn, calls[0]['args'][0], env, 0)
-        if t[0] == 'param' and t[3] == 'query_path':
+        # either the builder's own `query_path` parameter, or (when the paths travel in a record) the value computed from
+        # the `query_path` attribute — never the schema path
+        nf_, nenv_ = env_of(calls[0])
+        t2 = ctx.pv.eval(nf_, calls[0]['args'][0], {}, 0)
+        keys2 = {c_ for c_ in TM.consts_in(t2) if c_ in ('query_path', 'schema_path')}
+        if (t[0] == 'param' and t[3] == 'query_path') or keys2 == {'query_path'}:
             obs.append(ok('ATTR-PATHS', 'derive/set_query_file', 'include_str! path = the query path the generator reads', calls[0].get('sp', '')))
         else:
             obs.append(bad('ATTR-PATHS', 'derive/set_query_file', 'query_file <- %s' % P.show(t, 0, 3), calls[0].get('sp', ''), 'cargo tracks another file'))
